@@ -5,7 +5,7 @@ A packet is send, and then it is acknowledged by a '+'.
 """
 
 import logging
-from queue import Queue
+from queue import Full, Queue
 from threading import Lock
 
 
@@ -30,6 +30,9 @@ class RspHandler:
     def sendpkt(self, data, retries=10):
         """sends data via the RSP protocol to the device"""
         with self._lock:
+            # Forget acknowledgements which were received while idle:
+            while not self._ack_queue.empty():
+                self.logger.warning("discards %s", self._ack_queue.get())
             wire_data = self.rsp_pack(data)
             self.logger.debug("--> %s", wire_data)
             self.send(wire_data)
@@ -56,7 +59,11 @@ class RspHandler:
                 self.logger.debug("<-- %s", msg)
 
             if msg in ["+", "-"]:
-                self._ack_queue.put(msg, timeout=0.5)
+                try:
+                    self._ack_queue.put_nowait(msg)
+                except Full:
+                    # Nobody is waiting for this acknowledgement.
+                    self.logger.warning("discards %s", msg)
             else:
                 self.decodepkt(msg)
 
